@@ -85,7 +85,10 @@ DocCorruptions(d) ==
   \cup {[d EXCEPT !.props[j] = x] : j \in 1..Len(d.props), x \in {I(0), N}}
   \cup {[d EXCEPT !.ctx = DelAt(@, i)] : i \in 1..Len(d.ctx)}
   \cup {[d EXCEPT !.ctx = Append(@, d.ctx[i])] : i \in 1..Len(d.ctx)}
-  \cup {[d EXCEPT !.ctx[i] = Append(@, x)] : i \in 1..Len(d.ctx), x \in {Len(d.props), 0 - 1, 0, Len(d.props) - 1}}
+  (* a bad or repeated index at the front, strictly inside or at the end of a row *)
+  \cup UNION {{[d EXCEPT !.ctx[i] = InsertAt(@, at, x)] : at \in 1..(Len(d.ctx[i]) + 1),
+                                                          x \in {Len(d.props), 0 - 1, 0, Len(d.props) - 1}}
+                 : i \in 1..Len(d.ctx)}
   \cup {[d EXCEPT !.ctx[i] = DelAt(@, 1)] : i \in {i \in 1..Len(d.ctx) : Len(d.ctx[i]) > 0}}
   \cup {[d EXCEPT !.lat = x] : x \in {"absent", "present", "empty"}}
   \cup {[d EXCEPT !.ignore = ~ @], [d EXCEPT !.require = ~ @], [d EXCEPT !.raw = ~ @]}
